@@ -123,6 +123,21 @@ def run(ctx):
         # RB read-back names
         readback(ctx, F, crate, a, ctors)
     ctx.floor("PIECES", "constructors analysed", n_ctor, 35)
+    # the images above are decided on the default build; a constructor that also exists without the default features must be the
+    # same code there (an associated constant or helper gated on a feature can make `Self::X` resolve differently: the
+    # constructor then emits another image in the minimal build although its text is unchanged)
+    from .. import cfgdiff as CD_
+    FB_ = ctx.F("B")
+    differing_ = []
+    n_common_ = 0
+    for (crate, kind), (a, row, hdrf) in sorted(kinds.items()):
+        for k_, i_ in F.insts.items():
+            if i_.get("impl_self_path") == a["path"] and i_.get("name") in CTOR_NAMES and i_.get("eff_pub") and not i_.get("closure") and k_ in FB_.insts:
+                n_common_ += 1
+                if CD_.body_hash(i_) != CD_.body_hash(FB_.insts[k_]):
+                    differing_.append("%s::%s" % (a["name"], i_["name"]))
+    ctx.check(not differing_, "PIECES", "feature-independent", "every constructor that exists with and without the default features is the same code in both "
+              "builds (after INLINE, constants evaluated)", "", how="%d constructors present in both builds, hash-equal" % n_common_, why="differ: %s" % differing_[:6])
     # ---- AL
     n_al = 0
     for im in F.impls:
